@@ -181,6 +181,22 @@ PKG_PAIRS = [
 ]
 
 
+GENERAL_PROBE = (_D + '\\begin{document}\\section{Wq1x}\\label{s1}\\subsection[Wq2x]{Wq3x}Wq4x \\textbf{Wq5x} \\textit{Wq6x} <Wq7x> \\footnote[2]{Wq8x} \\ref{s1}* \\pageref{s1}\n\n'
+                 '\\begin{itemize}\\item <Wq9x> Wq10x\\item[Wq11x] Wq12x\\end{itemize}\\begin{enumerate}\\item [Wq13x]\\label{i1}\\end{enumerate}\\begin{description}\\item[Wq14x] <Wq15x>\\end{description}\n\n'
+                 '\\begin{verse}[Wq16x] Wq17x\\end{verse}\\begin{quote}<Wq18x>\\end{quote}\\begin{quotation}[Wq19x]\\end{quotation}\\begin{abstract}<Wq20x>\\end{abstract}\n\n'
+                 '\\begin{figure}Wq21x\\caption{Wq22x}\\label{f1}\\end{figure}\\begin{table}\\begin{tabular}{l|r}Wq23x&Wq24x\\\\Wq25x&Wq26x\\end{tabular}\\caption[Wq27x]{Wq28x}\\end{table}\n\n'
+                 '\\newcommand{\\zqnc}[1]{(#1)}\\zqnc{Wq29x} \\newenvironment{zqnv}{[}{]}\\begin{zqnv}Wq30x\\end{zqnv} $a<b>c$ \\[x^2\\] \\begin{equation}y\\label{e1}\\end{equation}\\ref{e1} \\ref{f1} \\ref{i1}\n\n'
+                 '\\cite{zk}\\begin{thebibliography}{9}\\bibitem{zk} <Wq31x> Wq32x\\bibitem[Wq33x]{zj}Wq34x\\end{thebibliography}\\appendix\\section{Wq35x}\\end{document}')
+DOCUMENT_CLASSES = ('article', 'book', 'report', 'amsart', 'amsbook', 'beamer', 'memoir', 'jss')
+
+
+def package_names():
+    """every package and class the distribution ships (read from the directory at run time)"""
+    import plasTeX.Packages
+    d = os.path.dirname(plasTeX.Packages.__file__)
+    return sorted(f[:-3] for f in os.listdir(d) if f.endswith('.py') and f != '__init__.py')
+
+
 def borrowed(r):
     """a document from the generator of another check (macro programs, conditionals, scopes, argument forms,
     counters, lists/tables, index, ifthen): everything that scans arguments or switches interpreter-wide state"""
@@ -237,6 +253,13 @@ def cases(seed, tier, shard, nshards):
         if i % 2:
             a, b = b, a
         yield {'A': [['package-setting:' + name, a]], 'B': ['probe', b], 'render': i % 4 >= 2, 'renderer': 'HTML5' if (i // 4) % 2 else 'XHTML', 'pair': name}
+    # every package and class of the distribution, loaded by an otherwise empty document, followed by a document that uses the
+    # standard macros (what a package does to shared classes when it is imported shows in the holders and in that document)
+    names = package_names()
+    for i in common.sharded(len(names), shard, nshards):
+        n = names[i]
+        a = ('\\documentclass{%s}\\begin{document}Wq1x\\end{document}' % n) if n in DOCUMENT_CLASSES else (_D + '\\usepackage{%s}\\begin{document}Wq1x\\end{document}' % n)
+        yield {'A': [['package-load:' + n, a]], 'B': ['probe', GENERAL_PROBE], 'render': False, 'renderer': 'HTML5', 'pair': 'load:' + n}
     for i in common.sharded(budget(tier)['n'], shard, nshards):
         r = common.rng_for(seed, PROP, i)
         As = [gen_doc(r) for _ in range(r.randint(1, 4))]
